@@ -31,7 +31,7 @@ def run(cx):
         rets = cx.calls(f, r'Vec<T, A>::retain$|Vec::retain$')
         secs = {}
         for s in rets:
-            m = re.search(rf'^Vec::retain\({RESP}\.(\w+),closure:RecursorDnsHandle::lookup::\{{closure#0\}}::\{{closure#0\}}\)$', s.term)
+            m = re.search(rf'^Vec::retain\({RESP}\.(\w+),closure:RecursorDnsHandle::lookup::\{{closure#0\}}::\{{closure@retain#0\}}\)$', s.term)
             if m:
                 secs[m.group(1)] = s
         cx.check('C19.P1', set(secs) == {'answers', 'authorities', 'additionals'}, f.path, 'calls', 'all-three-sections-filtered', ', '.join(sorted(secs)))
@@ -41,7 +41,7 @@ def run(cx):
             cx.must_pass('C19.P1', f, sinks, via_blocks={s.bb}, what=f'{nm}-filtered-before-cache-or-return')
         for s in sinks:
             cx.check('C19.P1', bool(re.search(rf'DnsResponse::into_message\({RESP}\)', s.term)), f.path, s.key(), 'sink-takes-the-filtered-response', s.term[:200], s.loc)
-    c = cx.fn('C19.P1', R + 'lookup::{closure#0}::{closure#0}')
+    c = cx.fn('C19.P1', R + 'lookup::{closure#0}::{closure@retain#0}')
     if c:
         t = cx.true_returns(c)
         cx.guard('C19.P1', t, {'in-bailiwick': r'^recursor::is_subzone\(\^+arg3,arg2\.name\)$'}, fn=c)
@@ -55,7 +55,7 @@ def run(cx):
                                'zone_of': r'^Name::zone_of\(arg1,arg2\)$'}, fn=z)
         cx.check('C19.P1', len(t) == 1, z.path, 'ret', 'single-true-return', str(len(t)))
     # ---------------------------------------------------------------- G1 / R1 ns_pool_for_name
-    f = cx.fn('C19.G1', R + 'ns_pool_for_name::{closure#0}')
+    f = cx.fn('C19.G1', R + 'ns_pool_for_name::{closure@pin#0}')
     if f:
         ZONE = r'Name::trim_to\(\^arg2,cast<usize>\(range::next\(RangeInclusive::new\(1,Name::num_labels\(\^arg2\)\)\)@Some\.0\)\)'
         REC_OK = rf'^ok\(RecursorError::recursion_exceeded\(\^arg1\.ns_recursion_limit,\^arg4,{ZONE}\)\)$'
@@ -86,7 +86,7 @@ def run(cx):
         sinks = cx.calls(g, r'Vec<T, A>::push$|Vec::push$|HashMap<K, V, S, A>::insert$|HashMap::insert$')
         cx.guard('C19.G1', sinks, {'address-not-denied': r'^!AccessControlSet::denied\(arg1\.name_server_filter,'}, fn=g)
         cx.floor('C19.G1', len(sinks), 2, 'glue map sinks')
-    a1 = cx.fn('C19.G1', R + 'append_ips_from_lookup::{closure#0}::{closure#1}')
+    a1 = cx.fn('C19.G1', R + 'append_ips_from_lookup::{closure#0}::{closure@filter_map#0}')
     if a1:
         some = cx.returns(a1, r'^Option::Some\(')
         cx.guard('C19.G1', some, {'address-not-denied': r'^!AccessControlSet::denied\(\^+arg1\.name_server_filter,try\(RData::ip_addr\(arg2\.data\)\)@Continue\.0\)$'}, expect=1, fn=a1)
@@ -97,7 +97,7 @@ def run(cx):
         for s in rc:
             cx.check('C19.R1', s.term.endswith(',^arg4,^arg3)'), a.path, s.key(), 'recursion-carries-the-callers-depth', s.term[-60:], s.loc)
     # ---------------------------------------------------------------- R1 resolve / resolve_cnames
-    rcn = cx.fn('C19.R1', R + 'resolve_cnames::{closure#0}')
+    rcn = cx.fn('C19.R1', R + 'resolve_cnames::{closure@pin#0}')
     if rcn:
         rs = cx.calls(rcn, r'RecursorDnsHandle<P>::resolve$|RecursorDnsHandle::resolve$')
         cx.guard('C19.R1', rs, {'depth-below-recursion-limit': r'^ok\(RecursorError::recursion_exceeded\(\^arg1\.recursion_limit,\^arg6,\^arg3\.name\)\)$',
@@ -132,7 +132,7 @@ def run(cx):
 
 
 def short(p):
-    p = re.sub(r'::\{closure#\d+\}', '', p)
+    p = re.sub(r'::\{closure[^}]*\}', '', p)
     return p.rsplit('::', 1)[-1]
 
 
@@ -141,7 +141,7 @@ def call_cycles(prog, scope_rx):
     rx = re.compile(scope_rx)
 
     def root(p):
-        return re.sub(r'(::\{closure#\d+\})+$', '', p)
+        return re.sub(r'(::\{closure[^}]*\})+$', '', p)
     edges = {}
     for f in prog.fns.values():
         if not rx.search(f.path):
